@@ -182,6 +182,11 @@ def body_chroma(case):
     # meaningful for exact chromaticities of in-bound intensities (completeness clause), everything else near it is band
     full = np.linalg.matrix_rank(Ph - Ph.mean(0), tol=1e-9) == sv.m - 1
     labs.append("fulldim" if full else "flat-chromatic-gamut")
+    dPh = np.abs(Ph[:, None, :] - Ph[None, :, :])
+    if np.any((dPh > 0) & (dPh < 1e-7 * max(float(np.max(Ph.max(0) - Ph.min(0))), 1e-300))):
+        # two chromatic vertices that nearly coincide (an almost achromatic source next to the baseline's chromaticity): a hull
+        # that is full-dimensional by 1e-8 is not resolvable by any tolerance-based test (as for the explicit clouds)
+        return labs + ["nearly-coincident-chromatic-vertices-skipped"]
     for r, b, g in zip(case["rows"], B, got):
         bh = b / np.abs(b).sum()
         t = hull_weight_margin(Ph, bh)
